@@ -122,6 +122,7 @@ def generate(repo, outdir):
             continue
         hs.append('\n#[kani::proof]\n#[kani::unwind(14)]\nfn clif_%s() { run_clif(%#04x); } // ebpf::%s\n' % (name.lower(), val, name))
         harnesses.append(dict(name='clif_' + name.lower(), kind='contract', opcode=name))
+    harnesses.append(dict(name='clif_env_precondition_satisfiable', kind='cover'))
     hs.append(BOUNDED_CFG)
     shapes = {'mov': 0xbf, 'ja': 0x05, 'jeq': 0x1d, 'exit': 0x95}
     quick_shapes = {('mov', 'jeq', 'exit'), ('ja', 'mov', 'exit'), ('jeq', 'mov', 'ja')}
